@@ -1,6 +1,6 @@
 (* E5 — model of KafkaMessageReceiver (message/kakfamessagereceiver.go): buildPartitionAssignments
-   (:145-174), processEvent (:176-197), processMessage (:199-218), deliverMessage (:220-225),
-   processInitBuffer (:229-241).  The decoding of a record value by encoding/json is an oracle:
+   (:154-181), processEvent (:183-204), processMessage (:206-224), deliverMessage (:226-231),
+   processInitBuffer (:235-247).  The decoding of a record value by encoding/json is an oracle:
    a record reaches the model as [Some wire] (json.Unmarshal succeeded, with these fields) or
    [None] (it returned an error).  Definitions only. *)
 From Coq Require Import List ZArith Bool.
@@ -11,9 +11,9 @@ Open Scope Z_scope.
 (* ---- buildPartitionAssignments ---- *)
 (* answer of QueryWatermarkOffsets: the (low, high) pair it returned and whether err != nil *)
 Inductive wres := WOk (low high : Z) | WErr (low high : Z).
-Definition max_replay : Z := 50000.                       (* maxMessagesToReplay, :33 *)
+Definition max_replay : Z := 50000.                       (* maxMessagesToReplay, :39 *)
 
-(* :152-162   on error only [low] is reset, [high] stays what the client returned *)
+(* :161-171   on error only [low] is reset, [high] stays what the client returned *)
 Definition start_of (w : wres) : Z :=
   let '(low, high) := match w with WOk l h => (l, h) | WErr _ h => (0, h) end in
   if high - low >? max_replay then high - max_replay else low.
@@ -40,33 +40,33 @@ Inductive rop :=
   | Eof (p : Z)             (* kafka.PartitionEOF *)
   | Other.                  (* kafka.Error and any other event *)
 
-(* the map key of initBuffer: messageID{type, key}  (:32-37) *)
+(* the map key of initBuffer: messageID{type, key}  (:29-37) *)
 Definition same_slot (a b : msg) : bool := same_id a b.
 
-(* r.initBuffer[messageID{type, key}] = wireMsg   (:220): the record of that slot is replaced.
+(* r.initBuffer[messageID{type, key}] = wireMsg   (:218): the record of that slot is replaced.
    (The list keeps slots in the order of their latest write; Go's map has no order and the
    correspondence compares init-time deliveries as a multiset.) *)
 Definition buf_put (w : wire) (b : list wire) : list wire :=
   filter (fun x => negb (same_slot (w_msg x) (w_msg w))) b ++ [w].
 
-(* r.partitionEOFs[e.Partition] = struct{}{}   (:183-186) *)
+(* r.partitionEOFs[e.Partition] = struct{}{}   (:188-192) *)
 Definition set_add (p : Z) (s : list Z) : list Z := if existsb (Z.eqb p) s then s else s ++ [p].
 
-(* processInitBuffer (:229-241): every buffered record that is not an acknowledgement is delivered *)
+(* processInitBuffer (:235-247): every buffered record that is not an acknowledgement is delivered *)
 Definition process_init_buffer (b : list wire) : list msg :=
   map w_msg (filter (fun w => negb (w_ack w)) b).
 
 (* one event: new state and the notifier calls made, in order *)
 Definition rstep (s : rstate) (o : rop) : rstate * list msg :=
   match o with
-  | Rec None => (s, [])                                                  (* :201-205 unmarshal error: skipped *)
+  | Rec None => (s, [])                                                  (* :207-212 unmarshal error: skipped *)
   | Rec (Some w) =>
       if r_init s
-      then (s, if w_ack w then [] else [w_msg w])                       (* :213-217 *)
+      then (s, if w_ack w then [] else [w_msg w])                       (* :217-223 *)
       else ({| r_init := false; r_eofs := r_eofs s; r_pcount := r_pcount s; r_buf := buf_put w (r_buf s) |}, [])
   | Eof p =>
       let e := set_add p (r_eofs s) in
-      if negb (r_init s) && (r_pcount s <=? length e)%nat               (* :187 *)
+      if negb (r_init s) && (r_pcount s <=? length e)%nat               (* :193 *)
       then ({| r_init := true; r_eofs := e; r_pcount := r_pcount s; r_buf := [] |}, process_init_buffer (r_buf s))
       else ({| r_init := r_init s; r_eofs := e; r_pcount := r_pcount s; r_buf := r_buf s |}, [])
   | Other => (s, [])
